@@ -97,7 +97,28 @@ func (c *Ctx) c16Expect(text string, data any, want string, rule string, feats m
 	}
 }
 
+// c16Rejected compiles malformed neighbours of the literals of s (a valid
+// prefix followed by a bad escape, an unterminated literal) right before the
+// valid spellings are evaluated: whatever a rejected literal leaves behind in
+// the process (pooled buffers, partially decoded text) must not leak into
+// the next literal.  The rejections themselves are C04's subject; here they
+// are only counted.
+func c16Rejected(c *Ctx, s string) {
+	j := jsonSpellings(s)[0]
+	body := j[:len(j)-1] // opening quote and content, no closing quote
+	raw := rawSpellings(s)[0]
+	for _, t := range []string{body + "\\x\"", body + "\\u12\"", body + "\\ud83d\\u0041\"", body, "`" + strings.ReplaceAll(body, "`", "\\`") + "\\x\"`", raw[:len(raw)-1], raw[:len(raw)-1] + "\\"} {
+		_, lc := c.LibCompile(t)
+		if lc.Err != nil {
+			c.Count("rejected_neighbours", 1)
+		} else {
+			c.Count("accepted_neighbours", 1)
+		}
+	}
+}
+
 func c16Check(c *Ctx, s string) {
+	c16Rejected(c, s)
 	for _, t := range rawSpellings(s) {
 		c.c16Expect(t, nil, s, "C16/raw-string", map[string]string{"syntax": "raw"})
 	}
@@ -227,7 +248,7 @@ func c16Value(r *gen.R, depth int) ref.V {
 func init() {
 	Register(&Property{
 		ID:            "C16",
-		Rule:          "every string of length <= 3 (quick) / <= 4 (thorough) over a 24-symbol hostile alphabet (quotes, backslash, backtick, brackets, separators, 2-/3-/4-byte code points, U+FFFD, U+007F, U+0080, U+07FF, U+FFFF, U+10FFFF) - exhaustive - plus every code point of a boundary set and seeded strings up to 200 code points with runs of escapes and delimiters: written as a raw string (both spellings of preserved backslashes), as a JSON literal (minimal, all-\\u with surrogate pairs, Go's encoder, \\/), nested in a literal container, and as a quoted identifier (field access and multi-select key) - each must decode to exactly that string / select exactly that member; generated JSON values (30-40 digit numbers, exponents, nested containers, odd keys) in random legal layouts between backticks must evaluate to themselves; direct oracle: the generator knows the answer; non-trivial = every string/value",
+		Rule:          "every string of length <= 3 (quick) / <= 4 (thorough) over a 24-symbol hostile alphabet (quotes, backslash, backtick, brackets, separators, 2-/3-/4-byte code points, U+FFFD, U+007F, U+0080, U+07FF, U+FFFF, U+10FFFF) - exhaustive - plus every code point of a boundary set and seeded strings up to 200 code points with runs of escapes and delimiters: written as a raw string (both spellings of preserved backslashes), as a JSON literal (minimal, all-\\u with surrogate pairs, Go's encoder, \\/), nested in a literal container, and as a quoted identifier (field access and multi-select key) - each must decode to exactly that string / select exactly that member; before the valid spellings of each string, malformed neighbours (valid prefix + bad escape, truncated surrogate pair, unterminated literal) are compiled in the same process so that state left behind by a rejected literal would show; generated JSON values (30-40 digit numbers, exponents, nested containers, odd keys) in random legal layouts between backticks must evaluate to themselves; direct oracle: the generator knows the answer; non-trivial = every string/value",
 		MinNontrivial: 5000,
 		Streams: []Stream{
 			{Name: "exhaustive", N: func(c *Ctx) int { return c16Count(c16Len(c)) }, Run: c16Exhaustive, Exhaustive: true},
